@@ -295,6 +295,21 @@ func runCensus(repo string) (map[string]string, error) {
 					}
 					c := &census{info: info, file: rel, fn: name, sites: sites, fset: fset}
 					c.walk(fd.Body)
+					// the way out: exported functions whose result, handed over by value, holds byte slices
+					if fd.Name.IsExported() && fd.Type.Results != nil {
+						for _, res := range fd.Type.Results.List {
+							t := info.TypeOf(res.Type)
+							if t == nil {
+								continue
+							}
+							if _, isPtr := t.Underlying().(*types.Pointer); isPtr {
+								continue // a pointer to a table record: shared by contract (documented locking)
+							}
+							if holdsBytes(t, map[types.Type]bool{}) {
+								c.add("returns ", typeName(t), res.Pos())
+							}
+						}
+					}
 				}
 			}
 		}
